@@ -7,6 +7,7 @@ package main
 import (
 	"encoding/json"
 	"fmt"
+	"regexp"
 	"strconv"
 	"strings"
 
@@ -60,7 +61,7 @@ func describeToks(ts []lexTok) string {
 }
 
 func checkC14(c *Check) {
-	c.rule = "MC_Lex: (1) every string of length 1..4 (thorough: 5) over an 18-character alphabet (letters incl. escape letter n and flag letters i m, digits 1 0, '.', both quotes, backslash, '/', newline, space, '#', a multi-byte letter, brackets, '=') with the token stream EFLexer prescribes (types and literals; the stream stops at the first ILLEGAL); (2) triples of 17 token spellings (identifiers, keyword, integer, decimal, strings holding quotes and comment openers, regexp with an escaped slash and a flag, operators) with 7 separators (space, newline, tab, comments, CR LF, a comment holding a quote) in every gap and at both ends: same tokens as the plain layout; inputs that are one literal are also executed and must denote the spelled value; a watchdog bounds the number of NextToken calls by the input length; MC_Lits: scripts writing several literals which print alike (\"2.5\" and 2.5; \"100000\", 100000 and 100000.0; \"a.c\" and /a.c/; ...) in every order, each used as what it is, run twice; distinct = distinct input text"
+	c.rule = "MC_Lex: (1) every string of length 1..4 (thorough: 5) over an 18-character alphabet (letters incl. escape letter n and flag letters i m, digits 1 0, '.', both quotes, backslash, '/', newline, space, '#', a multi-byte letter, brackets, '=') with the token stream EFLexer prescribes (types and literals; the stream stops at the first ILLEGAL); (2) triples of 17 token spellings (identifiers, keyword, integer, decimal, strings holding quotes and comment openers, regexp with an escaped slash and a flag, operators) with 7 separators (space, newline, tab, comments, CR LF, a comment holding a quote) in every gap and at both ends: same tokens as the plain layout; inputs that are one literal are also executed and must denote the spelled value; a watchdog bounds the number of NextToken calls by the input length; regexp literals whose pattern begins with or contains a group carrying flags of its own (15 patterns x 4 flag sets x 12 subjects; oracle: the host's regexp package on (?flags)pattern); MC_Lits: scripts writing several literals which print alike (\"2.5\" and 2.5; \"100000\", 100000 and 100000.0; \"a.c\" and /a.c/; ...) in every order, each used as what it is, run twice; distinct = distinct input text"
 	c.assumptions = []string{"a '/' is division after an identifier, a number, ')' or ']' and opens a regexp elsewhere", "what follows an ILLEGAL token is not compared", "only insertion of layout is tested, and comments are inserted after white space"}
 	type lexRow struct {
 		K    string            `json:"k"`
@@ -68,6 +69,7 @@ func checkC14(c *Check) {
 		Toks []json.RawMessage `json:"toks"`
 	}
 	runLitRows(c)
+	runRegexpLiterals(c)
 	runRows(c, "MC_Lex", stdCfg(c.Tier, "LayoutInvariant", "Terminates", "WellEnded"), func(row *Row) {
 		var r lexRow
 		if err := json.Unmarshal(row.Raw, &r); err != nil {
@@ -128,6 +130,42 @@ func checkC14(c *Check) {
 			}
 		}
 	})
+}
+
+// A regexp literal denotes its pattern plus its i / m flags - also when the pattern itself begins with a group
+// that carries flags of its own.  The oracle is the host's regexp package applied to "(?flags)pattern" (trusted);
+// the subjects hold no blanks or line breaks, so that what the test does with those plays no part.
+func runRegexpLiterals(c *Check) {
+	patterns := []string{"(?i:ab)c", "(?i:ab)", "(?:ab|cd)e", "(?m:^ab)c", "(?i-m:ab)c", "(?i)abc", "a(?i:b)c", "(?s:a.c)", "(ab)+c", "(?i:a)(?:b)c", "(?:a)(?i:bc)", "(?im:^abc$)", "(?-i:ab)c", "abc", "^(?i:ab)C$"}
+	flags := []string{"", "i", "m", "im"}
+	subjects := []string{"abc", "ABC", "ABc", "aBC", "abC", "cde", "CDe", "xabc", "ababc", "ab", "AB", "aXc"}
+	for _, p := range patterns {
+		for _, f := range flags {
+			full := p
+			if f != "" {
+				full = "(?" + f + ")" + p
+			}
+			re, err := regexp.Compile(full)
+			if err != nil {
+				continue
+			}
+			for _, s := range subjects {
+				src := fmt.Sprintf("return %s ~= /%s/%s;", quoteString([]rune(s)), p, f)
+				want := fmt.Sprintf("BOOLEAN \"%v\"", re.MatchString(s))
+				c.count("relit|"+src, true)
+				for _, opt := range []bool{true, false} {
+					m, err := newMachine(src, nil, nil, opt, nil)
+					if err != nil {
+						c.disagree(&Disagreement{Kind: "literal-rejected", Script: src, Expected: want, Got: err.Error()})
+						break
+					}
+					if got := m.exec(nil).class(); got != want {
+						c.disagree(&Disagreement{Kind: "literal-denotation", Script: src, Mode: map[bool]string{true: "opt", false: "noopt"}[opt], Expected: want + " (the pattern " + full + ")", Got: got})
+					}
+				}
+			}
+		}
+	}
 }
 
 // literals spelled alike (a string, an integer, a decimal, a regexp) in one script: each denotes its own value
